@@ -221,6 +221,10 @@ impl Shadow {
 pub struct Slot<K: KeyT> {
     pub obj: Obj<K>,
     pub shadow: Shadow,
+    /// "" | "C14" (born from a serialise/deserialise round trip) | "C15" (born from a document):
+    /// a failure of any oracle on such an object is also a failure of that property
+    /// ("a deserialised interner keeps working", "every safe call is well-defined").
+    pub born: &'static str,
 }
 
 #[derive(Default)]
@@ -246,6 +250,7 @@ pub struct World<K: KeyT> {
     pub case_header: String,
     pub line_no: u64,
     pub ops_since_sweep: u64,
+    pub cur_born: &'static str,
 }
 
 fn key<K: KeyT>(i: usize) -> Option<K> {
